@@ -34,8 +34,13 @@ def run(ck, ctx):
         frs += [("alter", {})]
     except ImportError:
         ck.note("alter / index fragment not built yet")
+    from ..rules.fragments import run_fragments
+    jobs = []
     for mod, kw in frs:
-        ex = run_fragment(ck, ctx, mod, tier=ck.tier, only_rules={"O-case"}, **kw)
+        kw = dict(kw)
+        label = kw.pop("label", None)
+        jobs.append(dict(module=mod, label=label, only_rules={"O-case"}, build_kw=dict(tier=ck.tier, **kw)))
+    for ex in run_fragments(ck, ctx, jobs):
         visited |= ex.visited_lex
     # ---- glued comma
     lm = ctx.lexer
